@@ -71,60 +71,90 @@ theorem sameD_gateProceed (ctx : Ctx) (st : St) (n : Node) : SameD st (gateProce
       · split <;> exact ⟨rfl, rfl, rfl⟩
       · exact SameD.refl st
 
-/-- `emitFold`: names are untouched except that a fold registers the display name of the output; it errs only when that
-name is registered already -/
-theorem emitFold_disp (ctx : Ctx) (st : St) (n : Node) (c : CInfo) :
+/-- without a clash `_make_initializer_name_unique` does nothing -/
+theorem makeRoom_noclash (st : St) (o : Name) (h : st.initDisplay.contains (st.display o) = false) : makeRoom st o = st := by
+  simp only [makeRoom, h, Bool.false_eq_true, if_false]
+
+/-- `makeRoom` touches display names, the registry of registered names and the log only -/
+theorem makeRoom_err (st : St) (o : Name) : (makeRoom st o).err = st.err := rfl
+
+/-- after commit 6fc3d91 the fold step has no error exit at all -/
+theorem emitFold_no_error (ctx : Ctx) (st : St) (n : Node) (c : CInfo) (m : String) : (emitFold ctx st n c).1 ≠ PRes.error m := by
+  unfold emitFold
+  simp only []
+  split
+  · simp
+  · split
+    · simp
+    · split <;> simp
+
+theorem emitFold_err (ctx : Ctx) (st : St) (n : Node) (c : CInfo) : (emitFold ctx st n c).2.err = st.err := by
+  unfold emitFold
+  simp only []
+  split
+  · rfl
+  · split
+    · rfl
+    · split
+      · split <;> rfl
+      · split <;> rfl
+
+/-- `emitFold` when the name of the single output is not registered yet: names are untouched except that a fold registers the
+display name of the output; it never errs -/
+theorem emitFold_disp (ctx : Ctx) (st : St) (n : Node) (c : CInfo)
+    (hno : ∀ o, n.outputs = [o] → st.initDisplay.contains (st.display o) = false) :
     (emitFold ctx st n c).2.dname = st.dname ∧ (emitFold ctx st n c).2.err = st.err ∧
     ((emitFold ctx st n c).2.initDisplay = st.initDisplay ∨
       ((∃ r, (emitFold ctx st n c).1 = PRes.repl n r) ∧
         (emitFold ctx st n c).2.initDisplay = st.display (n.outputs.headD "") :: st.initDisplay)) ∧
     (∀ m, (emitFold ctx st n c).1 = PRes.error m → n.outputs.length = 1 ∧
       st.initDisplay.contains (st.display (n.outputs.headD "")) = true) := by
-  unfold emitFold
-  simp only []
-  split
-  · exact ⟨rfl, rfl, Or.inl rfl, fun m h => by simp at h⟩
-  · rename_i hlen
-    have hlen1 : n.outputs.length = 1 := by
-      cases hl : n.outputs.length == 1 with
-      | true => exact beq_iff_eq.mp hl
-      | false => exfalso; apply hlen; simp [bne, hl]
+  have hne : ∀ m, (emitFold ctx st n c).1 = PRes.error m → n.outputs.length = 1 ∧
+      st.initDisplay.contains (st.display (n.outputs.headD "")) = true :=
+    fun m h => absurd h (emitFold_no_error ctx st n c m)
+  refine ⟨?_, emitFold_err ctx st n c, ?_, hne⟩
+  all_goals
+    unfold emitFold
+    simp only []
     split
-    · exact ⟨rfl, rfl, Or.inl rfl, fun m h => by simp at h⟩
-    · have hs1 : SameD st (if c.size > ctx.outLimit then st.note "gate:outputsize_compensated" else st) := by
-        split
-        · exact ⟨rfl, rfl, rfl⟩
-        · exact SameD.refl st
-      generalize (if c.size > ctx.outLimit then st.note "gate:outputsize_compensated" else st) = s1 at hs1 ⊢
-      have hdisp : s1.display (n.outputs.headD "") = st.display (n.outputs.headD "") := hs1.display _
-      simp only [St.freshName]
-      cases hf : ctx.isFunction with
-      | true =>
-        simp only [if_true]
-        exact ⟨hs1.1, hs1.2.2, Or.inl hs1.2.1, fun m h => by simp at h⟩
-      | false =>
-        simp only [Bool.false_eq_true, if_false]
-        cases hc : (s1.setInfo ("%" ++ toString s1.fresh)
-            { dtype := some c.dtype, shape := some (List.map (fun d => Dim.known (Int.ofNat d)) c.shape), const := some c }).initDisplay.contains
-            ((s1.setInfo ("%" ++ toString s1.fresh)
-              { dtype := some c.dtype, shape := some (List.map (fun d => Dim.known (Int.ofNat d)) c.shape), const := some c }).display
-              (n.outputs.headD "")) with
+    · first | rfl | exact Or.inl rfl
+    · rename_i hlen
+      have hlen1 : n.outputs.length = 1 := by
+        cases hl : n.outputs.length == 1 with
+        | true => exact beq_iff_eq.mp hl
+        | false => exfalso; apply hlen; simp [bne, hl]
+      obtain ⟨o, ho⟩ : ∃ o, n.outputs = [o] := by
+        match hn : n.outputs, hlen1 with
+        | [o], _ => exact ⟨o, rfl⟩
+      have hhead : n.outputs.headD "" = o := by rw [ho]; rfl
+      split
+      · first | rfl | exact Or.inl rfl
+      · have hs1 : SameD st (if c.size > ctx.outLimit then st.note "gate:outputsize_compensated" else st) := by
+          split
+          · exact ⟨rfl, rfl, rfl⟩
+          · exact SameD.refl st
+        generalize (if c.size > ctx.outLimit then st.note "gate:outputsize_compensated" else st) = s1 at hs1 ⊢
+        have hdisp : s1.display o = st.display o := hs1.display _
+        simp only [St.freshName]
+        cases hf : ctx.isFunction with
         | true =>
-          simp only [St.setInfo, St.display] at hc
-          simp only [St.setInfo, St.display, hc, if_true]
-          refine ⟨hs1.1, hs1.2.2, Or.inl hs1.2.1, fun m _ => ⟨hlen1, ?_⟩⟩
-          have hc' : s1.initDisplay.contains (s1.display (n.outputs.headD "")) = true := hc
-          rw [hdisp, hs1.2.1] at hc'
-          exact hc'
+          simp only [if_true]
+          first | exact hs1.1 | exact Or.inl hs1.2.1
         | false =>
-          simp only [St.setInfo, St.display] at hc
-          simp only [St.setInfo, St.display, hc, Bool.false_eq_true, if_false]
-          refine ⟨hs1.1, hs1.2.2, Or.inr ⟨⟨_, rfl⟩, ?_⟩, fun m h => by simp at h⟩
-          show s1.display (n.outputs.headD "") :: s1.initDisplay = _
-          rw [hdisp, hs1.2.1]
-          rfl
+          simp only [Bool.false_eq_true, if_false, hhead]
+          have hnc : s1.initDisplay.contains (s1.display o) = false := by
+            rw [hdisp, hs1.2.1]
+            exact hno o ho
+          rw [makeRoom_noclash]
+          · first
+              | exact hs1.1
+              | (refine Or.inr ⟨⟨_, rfl⟩, ?_⟩
+                 show s1.display o :: s1.initDisplay = _
+                 rw [hdisp, hs1.2.1])
+          · exact hnc
 
-theorem gateCascade_disp (ctx : Ctx) (st : St) (n : Node) (v : Nat) :
+theorem gateCascade_disp (ctx : Ctx) (st : St) (n : Node) (v : Nat)
+    (hno : ∀ o, n.outputs = [o] → st.initDisplay.contains (st.display o) = false) :
     (gateCascade ctx st n v).2.dname = st.dname ∧ (gateCascade ctx st n v).2.err = st.err ∧
     ((gateCascade ctx st n v).2.initDisplay = st.initDisplay ∨
       ((∃ r, (gateCascade ctx st n v).1 = PRes.repl n r) ∧
@@ -162,6 +192,7 @@ theorem gateCascade_disp (ctx : Ctx) (st : St) (n : Node) (v : Nat) :
               · exact keep _ (SameD.trans hgp ⟨rfl, rfl, rfl⟩)
               · rename_i c _
                 obtain ⟨e1, e2, e3, e4⟩ := emitFold_disp ctx st' n c
+                  (fun o ho => by rw [hgp.display, hgp.2.1]; exact hno o ho)
                 have hd : st'.display (n.outputs.headD "") = st.display (n.outputs.headD "") := hgp.display _
                 refine ⟨e1.trans hgp.1, e2.trans hgp.2.2, ?_, ?_⟩
                 · rcases e3 with e3 | ⟨er, e3⟩
@@ -365,7 +396,10 @@ theorem visitNodes_total (ctx : Ctx) (hnf : ctx.isFunction = false) (vg : St →
                 | .error m => ({ st with err := some m }, acc.reverse ++ n0 :: rest, ai)
                 | .ok (newNodes, inits, st) => visitNodes ctx vg f st (newNodes ++ rest) acc (ai ++ inits)).1.err = none := by
         intro stG v hG
-        obtain ⟨g1, g2, g3, g4⟩ := gateCascade_disp ctx stG n v
+        obtain ⟨g1, g2, g3, g4⟩ := gateCascade_disp ctx stG n v (fun o ho => by
+          have ho0 : o ∈ n0.outputs := by rw [← hnout, ho]; simp
+          rw [hG.display, (hdisp0 n0 List.mem_cons_self o ho0).1, hG.2.1]
+          exact (hdisp0 n0 List.mem_cons_self o ho0).2)
         rcases gateCascade_cases ctx hnf stG n v with ⟨st', hg, hs'⟩ | ⟨m, st', hg⟩ | ⟨c, st2, st3, o, hs2, hora, ho, hsubs, hnc, hins, hg, hsym3, hinfo3⟩
         · rw [hg] at g1 g2 g3 ⊢
           simp only [hnsubs, visitSubs, setSubs_nil n hnsubs]
